@@ -294,7 +294,7 @@ def _run_loader(ce, lfq, n, text):
 
 
 def K2_reader(rep, flow: Flow):
-    rep.rule("K2", "the stabilizer record takes graph id / cost / depth / circuit from positions 0 / 1 / 2 / 3 of one and the same table line, and the circuit is parsed from position 3 of that line", floor=4)
+    rep.rule("K2", "the stabilizer record takes cost / depth / circuit from positions 1 / 2 / 3 of one and the same table line, and the circuit is parsed from position 3 of that line", floor=3)
     m = flow.prog.modules.get("circuit_lookup")
     if m is None:
         raise AnalysisError("module circuit_lookup vanished")
@@ -314,7 +314,7 @@ def K2_reader(rep, flow: Flow):
                 raise AnalysisError(f"{f.fq}: stabilizer accessor does not return a record")
             found = True
             fields = dict(d[3])
-            want = {"graph_id": 0, "cost": 1, "depth": 2}
+            want = {"cost": 1, "depth": 2}     # the metadata C04 speaks about; the graph id is not part of it
             lines = set()
             for name, pos in want.items():
                 v = fields.get(name)
